@@ -165,4 +165,8 @@ PROP_CONFIGS = {
     "C20": {"quick": ["", "std"], "thorough": ["", "alloc", "std"]},
 }
 
+# C06: the property itself is only decided by a bounded enumeration; the Verus obligations listed in its evidence are the
+# contracts of the functions `skip` calls (iterators, accessors), not of `skip`
+PROP_LEVEL = {"C06": "model_checking"}
+
 ALL_PROPS = ["C%02d" % i for i in range(1, 21)]
